@@ -58,6 +58,9 @@ def chain(seed, k, tier):
     s.grade(200, rates=rates)
     s.transfer(200, users[3], "pXBT", [(users[4], 12345)], track=False)
     s.grade(287, rates=rates)
+    # a conversion that executes AT the payout height: the snapshot is taken before any balance change of that block
+    s.convert(287, users[1], "pUSD", 10 * 10**8, "pXBT", track=False)
+    s.convert(287, users[6], "PEG", 10 * 10**8, "pUSD", track=False)
     if mode == "zero-rate":
         # pEUR (a low ticker index) is recorded as 0 at the payout height (OPR outside the 25% band of the SPR);
         # holders that own pEUR also own assets with a higher ticker index (pXBT, pDCR), which must still count
